@@ -133,6 +133,10 @@ func ParseOne(reader *bufio.Reader) (*ChangelogEntry, error) {
 	changeLog.Arguments = map[string]string{}
 
 	for _, entry := range strings.Split(options, ",") {
+		if trim(entry) == "" {
+			/* "zero or more" items: no item, no entry */
+			continue
+		}
 		key, value := partition(trim(entry), "=")
 		changeLog.Arguments[trim(key)] = trim(value)
 	}
